@@ -94,6 +94,7 @@ struct Scn
   std::atomic<int> errHandlerCalls{0};
   std::atomic<int> badException{0};
   std::atomic<uint64_t> sampledMaxThreads{0};
+  std::atomic<uint64_t> argMismatch{0}, viaArgs{0};
 };
 
 static Scn *G = nullptr;
@@ -133,12 +134,38 @@ static int taskBody(Scn *S, size_t id, int kind, uint64_t salt)
   return int(id) * 3 + 1;
 }
 
+// the same body, submitted as function + argument pack (the pool must own COPIES of the arguments: the
+// submitter's variables change / die as soon as the submission call has returned)
+static int taskBodyArgs(Scn *S, size_t id, int kind, uint64_t salt, std::string tag)
+{
+  if (id >= S->recs.size() || tag != "t" + std::to_string(id)) { S->argMismatch++; return -1; }
+  return taskBody(S, id, kind, salt);
+}
+
 static void submit(Scn *S, size_t id, int api, int kind, uint64_t salt)
 {
   TaskRec &r = *S->recs[id];
   r.api = api; r.kind = kind;
   r.callNs.store(vf::nowNs());
   bool ok = false;
+  if ((salt >> 41) % 3 == 0)
+  {
+    // argument-pack form; every argument is a local that is overwritten right after the call returned
+    size_t idv = id; int kv = kind; uint64_t sv = salt; std::string tag = "t" + std::to_string(id);
+    S->viaArgs++;
+    try
+    {
+      if (api == ENQ) { S->pool->enqueue(&taskBodyArgs, S, idv, kv, sv, tag); ok = true; }
+      else if (api == TRY) { ok = S->pool->tryEnqueue(&taskBodyArgs, S, idv, kv, sv, tag); if (!ok) r.refusal = "false"; }
+      else { r.fut = S->pool->enqueueWithResult(&taskBodyArgs, S, idv, kv, sv, tag); r.hasFut = true; ok = true; }
+    }
+    catch (const std::runtime_error &e) { ok = false; r.refusal = e.what(); r.hasFut = false; }
+    catch (...) { ok = false; r.refusal = "(non-runtime_error exception)"; S->badException++; r.hasFut = false; }
+    idv = S->recs.size() + 7; kv = QUICK; sv = 0; tag.assign(64, 'x');
+    r.retNs.store(vf::nowNs());
+    r.accepted.store(ok ? 1 : 2);
+    return;
+  }
   try
   {
     if (api == ENQ) { S->pool->enqueue([S, id, kind, salt]() { taskBody(S, id, kind, salt); }); ok = true; }
@@ -397,6 +424,9 @@ static bool runScenario(uint64_t seed, uint64_t idx)
   if (refusedRan) O.viol("C09:refused-task-ran", "a refused submission was executed", det("\"count\":" + std::to_string(refusedRan)));
   if (lateStart) O.viol("C09:task-started-after-shutdown", "task body entered after stop()/destructor returned", det("\"count\":" + std::to_string(lateStart)));
   else if (lateExit) O.viol("C09:task-running-after-shutdown", "task body still running after stop()/destructor returned", det("\"count\":" + std::to_string(lateExit)));
+  if (S->argMismatch.load()) O.viol("C09:task-arguments-not-copied", "a task submitted as function + arguments ran with argument values other than those passed at submission (the submitter's variables were overwritten after the call returned)",
+                                    det("\"count\":" + std::to_string(S->argMismatch.load()) + ",\"submitted_with_arguments\":" + std::to_string(S->viaArgs.load())));
+  O.obs("tasks_submitted_with_argument_pack", S->viaArgs.load());
   if (futBad) O.viol("C09:future-wrong", "future not ready after shutdown or wrong value/exception", det("\"count\":" + std::to_string(futBad)));
   if (badReason || S->badException.load()) O.viol("C09:refusal-reason", "submission refused for a reason other than full/draining/shut down: " + badReasonText, det("\"count\":" + std::to_string(badReason)));
   if (fullUnjust) O.viol("C09:refused-full-unjustified", "submission refused as queue-full although fewer tasks than the queue size were ever submitted", det("\"count\":" + std::to_string(fullUnjust)));
